@@ -104,7 +104,15 @@ def run_property(pid, tier, seed, relock=False, verbose=False):
     guards = [(o, r) for o, r in zip(obligations, results) if o.expect != 'unsat']
     discharged = [(o, r) for o, r in proof_obls if r.verdict == 'unsat']
     failed = [(o, r) for o, r in proof_obls if r.verdict != 'unsat']
-    vacuous = [(o, r) for o, r in guards if r.verdict == 'unsat']
+    # vacuity: the precondition must be satisfiable and, per function, at least one return path reachable
+    vacuous = [(o, r) for o, r in guards if r.verdict == 'unsat' and '/pre-sat' in o.id]
+    covers = {}
+    for o, r in guards:
+        if '/cover:return' in o.id:
+            covers.setdefault(fn_of[o.id], []).append((o, r))
+    for q, lst in covers.items():
+        if all(r.verdict == 'unsat' for _, r in lst):
+            vacuous.append(lst[0])
 
     if relock:
         lk = {k: v for k, v in lock.items() if not any(k.startswith(q + '/') for q in P['functions'])}
